@@ -30,7 +30,7 @@ type c15RealObs struct {
 }
 
 func c15RealBound(c *c15RealCase) time.Duration {
-	if c.End == "cancel" && strings.HasPrefix(c.Kind, "tcp") && c.Op != "listener.accept" {
+	if c.End != "deadline" && strings.HasPrefix(c.Kind, "tcp") && c.Op != "listener.accept" {
 		return 5 * time.Second
 	}
 	return 0
@@ -78,9 +78,12 @@ func runC15Real(c *c15RealCase) *c15RealObs {
 		start := time.Now()
 		var ctx context.Context
 		var cancel context.CancelFunc
-		if c.End == "deadline" {
+		switch c.End {
+		case "deadline":
 			ctx, cancel = context.WithDeadline(context.Background(), start.Add(at))
-		} else {
+		case "cancel+deadline":
+			ctx, cancel = context.WithDeadline(context.Background(), start.Add(time.Minute))
+		default:
 			ctx, cancel = context.WithCancel(context.Background())
 		}
 		done := make(chan opResult, 1)
@@ -102,7 +105,7 @@ func runC15Real(c *c15RealCase) *c15RealObs {
 		}
 		obs.Blocked = true
 		time.Sleep(time.Until(tEnd))
-		if c.End == "cancel" {
+		if c.End != "deadline" {
 			cancel()
 			tEnd = time.Now()
 		}
@@ -132,7 +135,7 @@ func TestC15Real(t *testing.T) {
 	defer rec.Finish(t)
 	var cases []*c15RealCase
 	for _, kind := range []string{"tcp", "tcp-tls", "ws", "wss"} {
-		for _, end := range []string{"deadline", "cancel"} {
+		for _, end := range []string{"deadline", "cancel", "cancel+deadline"} {
 			cases = append(cases, &c15RealCase{Op: "transport.receive", Kind: kind, End: end, AtMs: 150})
 			cases = append(cases, &c15RealCase{Op: "transport.send", Kind: kind, End: end, AtMs: 200})
 			if kind == "tcp" || kind == "ws" {
